@@ -15,6 +15,7 @@
 -/
 import Proofs.Param
 import Proofs.ParamStore
+import Proofs.ParamReplay
 namespace Pulser
 namespace C08
 open Param
@@ -24,6 +25,25 @@ the stored calls). -/
 def liftDirect (n : Nat) : Except (Nat × Err) SeqState → Except PErr SeqState
   | .ok s => .ok s
   | .error (k, e) => .error (.buildFailed (k - n) e)
+
+/-- `build` against the direct script, given that replaying `_calls` reproduces the prefix. -/
+theorem build_eq_direct_of_replay (I : Interp) (ρ : Assign) (dev : Device) (nQ : Nat)
+    (userOps : List Op) (t : Tmpl) (ops : List Op)
+    (hpre : runAll (SeqState.init dev nQ) userOps = .ok t.pre)
+    (hrep : run (SeqState.init t.pre.dev t.pre.nQ) t.pre.calls = t.pre)
+    (hcov : covers t.vars ρ = true) (hev : evalOps I ρ t.stored = some ops) :
+    build I t ρ = liftDirect userOps.length (runAll (SeqState.init dev nQ) (userOps ++ ops)) := by
+  have hsplit := runAll_append_ok (b := ops) hpre
+  unfold build
+  simp only [hcov, hev, hrep, Bool.not_true, Bool.false_eq_true, if_false]
+  rw [hsplit]
+  have hshift := runAllFrom_shift userOps.length 0 t.pre ops
+  simp only [Nat.add_zero] at hshift
+  rw [hshift]
+  unfold runAll
+  cases hr : runAllFrom 0 t.pre ops with
+  | ok s => simp [shiftErr, liftDirect]
+  | error x => obtain ⟨k, e⟩ := x; simp [shiftErr, liftDirect]
 
 /-- **`build` returns the same sequence as issuing the same calls directly with the
 evaluated values** (clause 1).  `userOps` are the concrete calls issued before the
@@ -36,8 +56,8 @@ call.
 Hypotheses = exactly what the replay of `_calls` needs (`replay_prefix`): the prefix calls
 all succeeded and are stored verbatim (`selfStored`: everything except `enable_eom_mode` /
 `modify_eom_setpoint`, which store the chosen `detuning_off` instead of the requested
-optimum — replaying those needs `closest_idempotent`, C09's `replay_log`, not proved here;
-and calls that raised half-way, findings F2.x, are excluded by `runAll … = .ok`).
+optimum — for those see `build_eq_direct_full`; calls that raised half-way, findings F2.x,
+are excluded by `runAll … = .ok`).
 Late `declare_channel` calls (issued while parametrized, hoisted by `build` before the
 stored calls) are outside this statement: correspondence only. -/
 theorem build_eq_direct (I : Interp) (ρ : Assign) (dev : Device) (nQ : Nat) (userOps : List Op)
@@ -45,19 +65,22 @@ theorem build_eq_direct (I : Interp) (ρ : Assign) (dev : Device) (nQ : Nat) (us
     (hpre : runAll (SeqState.init dev nQ) userOps = .ok t.pre)
     (hplain : ∀ op ∈ userOps, selfStored op = true)
     (hcov : covers t.vars ρ = true) (hev : evalOps I ρ t.stored = some ops) :
-    build I t ρ = liftDirect userOps.length (runAll (SeqState.init dev nQ) (userOps ++ ops)) := by
-  have hrep := replay_prefix hplain hpre
-  have hsplit := runAll_append_ok (b := ops) hpre
-  unfold build
-  simp only [hcov, hev, hrep, Bool.not_true, Bool.false_eq_true, if_false]
-  rw [hsplit]
-  have hshift := runAllFrom_shift userOps.length 0 t.pre ops
-  simp only [Nat.add_zero] at hshift
-  rw [hshift]
-  unfold runAll
-  cases hr : runAllFrom 0 t.pre ops with
-  | ok s => simp [shiftErr, liftDirect]
-  | error x => obtain ⟨k, e⟩ := x; simp [shiftErr, liftDirect]
+    build I t ρ = liftDirect userOps.length (runAll (SeqState.init dev nQ) (userOps ++ ops)) :=
+  build_eq_direct_of_replay I ρ dev nQ userOps t ops hpre (replay_prefix hplain hpre) hcov hev
+
+/-- **The same for every successful concrete prefix**, EOM calls included: with C09's
+`step_record` (the stored `enable_eom_mode` / `modify_eom_setpoint` carries the chosen
+off-detuning and replaying it chooses it again), the only requirement left is that the
+detuning-off options of those calls are pairwise distinct (`NodupOpts`; they are values of a
+strictly monotone function of the beams in the library, checked on the oracle by the harness
+of C15).  Queries in the prefix are allowed. -/
+theorem build_eq_direct_full (I : Interp) (ρ : Assign) (dev : Device) (nQ : Nat) (userOps : List Op)
+    (t : Tmpl) (ops : List Op)
+    (hpre : runAll (SeqState.init dev nQ) userOps = .ok t.pre)
+    (hn : ∀ op ∈ userOps, NodupOpts op)
+    (hcov : covers t.vars ρ = true) (hev : evalOps I ρ t.stored = some ops) :
+    build I t ρ = liftDirect userOps.length (runAll (SeqState.init dev nQ) (userOps ++ ops)) :=
+  build_eq_direct_of_replay I ρ dev nQ userOps t ops hpre (replay_prefix_full hn hpre) hcov hev
 
 /-- The successful case, in the words of the property. -/
 theorem build_ok_iff_direct_ok (I : Interp) (ρ : Assign) (dev : Device) (nQ : Nat)
@@ -118,7 +141,7 @@ variables of the call, and `tstep` refuses a call with an undeclared variable). 
 theorem storedForm_vars (t : Tmpl) (p : POp) : (storedForm t p).vars = p.vars := by
   unfold storedForm
   repeat' split
-  all_goals first | rfl | simp [POp.vars]
+  all_goals rfl
 
 /-- **A mappable register is resolved to exactly the requested traps, in declared qubit
 order** (clause 3): `declared` = the qubit ids of the `MappableRegister` in declaration
@@ -231,13 +254,14 @@ def exDev : Device := { chans := [exCfg], dmms := [], reusable := false, maxSeqD
 def exPre : SeqState := run (SeqState.init exDev 2) [.declare (.user 0) 0 (some [0])]
 def exT : Tmpl := { pre := exPre, vars := [(0, 1), (1, 2)] }
 
-/-- F3 (a C09 finding that shows here): a call that uses a variable this sequence never
-declared raises, **but the sequence is already parametrized** (`verify_variable` sets
-`_building = False` before it checks the variables). -/
-theorem foreign_variable_flips_parametrized :
-    (tstep exT (.delay (.param (.var 7 0)) (.user 0) false)).2 = some .unknownVariable ∧
-    (tstep exT (.delay (.param (.var 7 0)) (.user 0) false)).1.param = true ∧
-    exT.param = false := by decide +kernel
+/-- Finding F3 (owned by C09, repaired in /repo): **a call that uses a variable this sequence
+never declared is refused and leaves the template exactly as it was** — in particular it does
+not turn the sequence parametrized (`verify_variable` used to set `_building = False` before
+it checked the variables). -/
+theorem foreign_variable_refused (t : Tmpl) (p : POp) (hp : p.isParam = true)
+    (hv : varsDeclared t p = false) : tstep t p = (t, some .unknownVariable) := by
+  unfold tstep
+  simp [hp, hv]
 
 /-- Observation (not a violation of the property as stated, which quantifies over
 templates that exist): store-time checks CAN reject a call that the direct construction
@@ -255,6 +279,9 @@ theorem store_rejects_what_direct_accepts :
   decide +kernel
 
 /-! ### Non-vacuity -/
+
+example : (POp.delay (.param (.var 7 0)) (.user 0) false).isParam = true ∧
+    varsDeclared exT (.delay (.param (.var 7 0)) (.user 0) false) = false ∧ exT.param = false := by decide
 
 def idI : Interp := ⟨fun f x => if f = 0 then some (if x < 0 then -x else x) else none,
                      fun _ _ => none, fun _ _ _ _ _ => none, fun _ _ => (0, 0)⟩
